@@ -126,3 +126,14 @@ CHECKS["C06"] = dict(
         "schedule coverage is statistical (many short-lived victims with traffic in flight, GOMAXPROCS 1/2/16, generated yields)",
     ],
 )
+
+CHECKS["C11"] = dict(
+    parts=[dict(pkg="net", run="^TestC11_")], level="exploration", crash_is_violation=True,
+    quick=dict(shards=8, checks=200, timeout=900),
+    thorough=dict(shards=16, checks=4000, timeout=3000),
+    assumptions=[
+        "a peer that sends an incomplete line or frame and then stays silent is only required to get no handler (the server legitimately keeps waiting)",
+        "a recovered panic that only closes the hostile peer's connection is recorded as a label (it is a C02 matter)",
+        "declared frame sizes above 2^26 are exercised in the thorough tier only",
+    ],
+)
